@@ -147,10 +147,18 @@ Definition pinned (o : oracle) (s : fsstate) (ov : option N) : Prop :=
   | None => True
   end.
 
+(** no hard links: the volatile namespace is injective, and the inode the durable
+    [current] is bound to is not reachable through another volatile name *)
+Definition vinj (s : fsstate) : Prop :=
+  forall f g i, vns s f = Some i -> vns s g = Some i -> f = g.
+
+Definition cur_excl (s : fsstate) : Prop :=
+  forall g i, dns s Current = Some i -> vns s g = Some i -> g = Current.
+
 (** protocol invariant for protocol state [(dv, vv, _)] *)
 Definition inv (o : oracle) (s : fsstate) (ps : pstate) : Prop :=
   let '(dv, vv, _) := ps in
-  wf s /\ cur_points o s (dns s) dv /\ cur_points o s (vns s) vv /\
+  (wf s /\ vinj s /\ cur_excl s) /\ cur_points o s (dns s) dv /\ cur_points o s (vns s) vv /\
   pinned o s dv /\ pinned o s vv.
 
 (** logical durable state of a consistent disk: [current] durable (= volatile), pointing
@@ -279,19 +287,17 @@ Proof.
     unfold upd_name in H. destruct (fname_eqb g f); [discriminate|eauto].
 Qed.
 
-Definition untouched (s : fsstate) (f : fname) (op : fsop) : Prop :=
-  forall g, In g (touched op) ->
-            g <> f /\ match op with
-                      | Create _ _ | Write _ _ => aliases s f g = false
-                      | _ => True
-                      end.
+Definition untouched (f : fname) (op : fsop) : Prop :=
+  forall g, In g (touched op) -> g <> f.
 
-Lemma aliases_false s f g j i :
-  aliases s f g = false -> vns s g = Some j -> vns s f = Some i \/ dns s f = Some i -> j <> i.
+(** no volatile name other than [f] is bound to an inode of [f] *)
+Definition noalias (s : fsstate) (f : fname) : Prop :=
+  forall g j, g <> f -> vns s g = Some j -> vns s f <> Some j /\ dns s f <> Some j.
+
+Lemma noalias_neq s f g j i :
+  noalias s f -> g <> f -> vns s g = Some j -> vns s f = Some i \/ dns s f = Some i -> j <> i.
 Proof.
-  unfold aliases. intros Ha Hg Hf ->. rewrite Hg in Ha.
-  apply orb_false_iff in Ha as [H1 H2].
-  destruct Hf as [Hf|Hf]; rewrite Hf in *; simpl in *; rewrite N.eqb_refl in *; discriminate.
+  intros Hn Hg Hj Hi ->. destruct (Hn g i Hg Hj) as [H1 H2]. destruct Hi; contradiction.
 Qed.
 
 Record keeps (s s' : fsstate) (f : fname) (op : fsop) : Prop := {
@@ -303,24 +309,24 @@ Record keeps (s s' : fsstate) (f : fname) (op : fsop) : Prop := {
 }.
 
 Lemma apply_keeps s op s' f :
-  apply s op = Some s' -> wf s -> untouched s f op -> keeps s s' f op.
+  apply s op = Some s' -> wf s -> noalias s f -> untouched f op -> keeps s s' f op.
 Proof.
-  intros Ha [_ Hb] Hu. destruct op; simpl in Ha.
+  intros Ha [_ Hb] Hna Hu. destruct op; simpl in Ha.
   - inversion Ha; subst; clear Ha. split; simpl; auto.
-  - destruct (Hu f0 (or_introl eq_refl)) as [Hne Hal].
+  - pose proof (Hu f0 (or_introl eq_refl)) as Hne.
     destruct (negb (vdirs s (dir_of f0))); [discriminate|].
     destruct (vns s f0) as [j|] eqn:Ev.
     + destruct excl; [discriminate|]. inversion Ha; subst; clear Ha. split; simpl; auto.
-      intros i Hi. pose proof (aliases_false _ _ _ _ _ Hal Ev Hi) as Hji.
+      intros i Hi. pose proof (noalias_neq _ _ _ _ _ Hna Hne Ev Hi) as Hji.
       rewrite upd_cont_other by congruence. auto.
     + inversion Ha; subst; clear Ha. split; simpl; auto.
       * apply upd_name_other. congruence.
       * intros i Hi. assert (i < next_ino s) by (eapply Hb; eauto).
         rewrite !upd_cont_other by lia. auto.
-  - destruct (Hu f0 (or_introl eq_refl)) as [Hne Hal].
+  - pose proof (Hu f0 (or_introl eq_refl)) as Hne.
     destruct (vns s f0) as [j|] eqn:Ev; [|discriminate].
     inversion Ha; subst; clear Ha. split; simpl; auto.
-    intros i Hi. pose proof (aliases_false _ _ _ _ _ Hal Ev Hi) as Hji.
+    intros i Hi. pose proof (noalias_neq _ _ _ _ _ Hna Hne Ev Hi) as Hji.
     rewrite upd_cont_other by congruence. auto.
   - destruct (vns s f0) as [j|] eqn:Ev; [|discriminate].
     inversion Ha; subst; clear Ha. split; simpl; auto.
@@ -331,17 +337,53 @@ Proof.
     + destruct (dname_eqb (dir_of f) d) eqn:Ed; [|now left].
       right. apply dname_eqb_eq in Ed. subst. auto.
     + intros e He. destruct (dname_eqb d Root); [now rewrite He|assumption].
-  - destruct (Hu src (or_introl eq_refl)) as [Hne1 _].
-    destruct (Hu dst (or_intror (or_introl eq_refl))) as [Hne2 _].
+  - pose proof (Hu src (or_introl eq_refl)) as Hne1.
+    pose proof (Hu dst (or_intror (or_introl eq_refl))) as Hne2.
     destruct (negb (dname_eqb (dir_of src) (dir_of dst))); [discriminate|].
     destruct (fname_eqb src dst).
     + destruct (vns s src); [|discriminate]. inversion Ha; subst. split; auto.
     + destruct (vns s src) as [i|] eqn:Ev; [|discriminate]. inversion Ha; subst; clear Ha.
       split; simpl; auto.
       rewrite upd_name_other by congruence. apply upd_name_other. congruence.
-  - destruct (Hu f0 (or_introl eq_refl)) as [Hne _].
+  - pose proof (Hu f0 (or_introl eq_refl)) as Hne.
     destruct (vns s f0) eqn:Ev; [|discriminate]. inversion Ha; subst; clear Ha.
     split; simpl; auto. apply upd_name_other. congruence.
+Qed.
+
+(** injectivity of the volatile namespace is preserved by every op *)
+Lemma vinj_apply s op s' : apply s op = Some s' -> wf s -> vinj s -> vinj s'.
+Proof.
+  intros Ha [_ Hb] Hi. destruct op; simpl in Ha.
+  - inversion Ha; subst; exact Hi.
+  - destruct (negb (vdirs s (dir_of f))); [discriminate|].
+    destruct (vns s f) as [j|] eqn:Ev.
+    + destruct excl; [discriminate|]. inversion Ha; subst; exact Hi.
+    + inversion Ha; subst; clear Ha. intros a b i. simpl. unfold upd_name.
+      destruct (fname_eqb a f) eqn:Ea, (fname_eqb b f) eqn:Eb; intros H1 H2.
+      * apply fname_eqb_eq in Ea, Eb. congruence.
+      * inversion H1; subst. specialize (Hb b _ (or_introl H2)). lia.
+      * inversion H2; subst. specialize (Hb a _ (or_introl H1)). lia.
+      * eapply Hi; eauto.
+  - destruct (vns s f); [|discriminate]. inversion Ha; subst; exact Hi.
+  - destruct (vns s f); [|discriminate]. inversion Ha; subst; exact Hi.
+  - destruct (negb (vdirs s d)); [discriminate|]. inversion Ha; subst; exact Hi.
+  - destruct (negb (dname_eqb (dir_of src) (dir_of dst))); [discriminate|].
+    destruct (fname_eqb src dst) eqn:Esd.
+    + destruct (vns s src); [|discriminate]. inversion Ha; subst; exact Hi.
+    + destruct (vns s src) as [j|] eqn:Ev; [|discriminate]. inversion Ha; subst; clear Ha.
+      intros a b i. simpl. unfold upd_name.
+      destruct (fname_eqb a dst) eqn:Ea, (fname_eqb b dst) eqn:Eb; intros H1 H2.
+      * apply fname_eqb_eq in Ea, Eb. congruence.
+      * inversion H1; subst. destruct (fname_eqb b src) eqn:Ebs; [discriminate|].
+        apply fname_eqb_neq in Ebs. exfalso. apply Ebs. eapply Hi; eauto.
+      * inversion H2; subst. destruct (fname_eqb a src) eqn:Eas; [discriminate|].
+        apply fname_eqb_neq in Eas. exfalso. apply Eas. eapply Hi; eauto.
+      * destruct (fname_eqb a src); [discriminate|]. destruct (fname_eqb b src); [discriminate|].
+        eapply Hi; eauto.
+  - destruct (vns s f) eqn:Ev; [|discriminate]. inversion Ha; subst; clear Ha.
+    intros a b i. simpl. unfold upd_name.
+    destruct (fname_eqb a f); [discriminate|]. destruct (fname_eqb b f); [discriminate|].
+    apply Hi.
 Qed.
 
 Lemma keeps_stable o s s' f op : keeps s s' f op -> stable o s f -> stable o s' f.
@@ -382,32 +424,79 @@ Proof.
   - congruence.
 Qed.
 
-Lemma safe_untouched s P op f : safe_op s P op = true -> In f P -> untouched s f op.
+Lemma cur_excl_apply s op s' :
+  apply s op = Some s' -> wf s -> vinj s -> cur_excl s -> untouched Current op -> cur_excl s'.
 Proof.
-  unfold safe_op, safe_name. intros H Hf g Hg.
-  rewrite forallb_forall in H. specialize (H g Hg).
-  rewrite forallb_forall in H. specialize (H f Hf).
-  apply andb_true_iff in H as [H1 H2].
-  apply negb_true_iff in H1, H2. apply fname_eqb_neq in H1.
-  split; [congruence|]. destruct op; auto.
+  intros Ha [_ Hb] Hi Hc Hu. destruct op; simpl in Ha.
+  - inversion Ha; subst; exact Hc.
+  - pose proof (Hu f (or_introl eq_refl)) as Hne.
+    destruct (negb (vdirs s (dir_of f))); [discriminate|].
+    destruct (vns s f) as [j|] eqn:Ev.
+    + destruct excl; [discriminate|]. inversion Ha; subst; exact Hc.
+    + inversion Ha; subst; clear Ha. intros g i. simpl. unfold upd_name.
+      destruct (fname_eqb g f); intros H1 H2; [|eapply Hc; eauto].
+      inversion H2; subst. specialize (Hb Current _ (or_intror H1)). lia.
+  - destruct (vns s f); [|discriminate]. inversion Ha; subst; exact Hc.
+  - destruct (vns s f); [|discriminate]. inversion Ha; subst; exact Hc.
+  - destruct (negb (vdirs s d)); [discriminate|]. inversion Ha; subst; clear Ha.
+    intros g i. simpl. destruct d; simpl; intros H1 H2; try (eapply Hc; now eauto).
+    symmetry. eapply Hi; eauto.
+  - pose proof (Hu src (or_introl eq_refl)) as Hne1.
+    pose proof (Hu dst (or_intror (or_introl eq_refl))) as Hne2.
+    destruct (negb (dname_eqb (dir_of src) (dir_of dst))); [discriminate|].
+    destruct (fname_eqb src dst) eqn:Esd.
+    + destruct (vns s src); [|discriminate]. inversion Ha; subst; exact Hc.
+    + destruct (vns s src) as [j|] eqn:Ev; [|discriminate]. inversion Ha; subst; clear Ha.
+      intros g i. simpl. unfold upd_name. intros H1.
+      destruct (fname_eqb g dst).
+      * intros H2; inversion H2; subst. exfalso. apply Hne1. eapply Hc; eauto.
+      * destruct (fname_eqb g src); [discriminate|]. eapply Hc; eauto.
+  - destruct (vns s f) eqn:Ev; [|discriminate]. inversion Ha; subst; clear Ha.
+    intros g i. simpl. unfold upd_name. intros H1.
+    destruct (fname_eqb g f); [discriminate|]. eapply Hc; eauto.
+Qed.
+
+Lemma safe_untouched P op f : safe_op P op = true -> In f P -> untouched f op.
+Proof.
+  unfold safe_op, safe_name. intros H Hf g Hg ->.
+  rewrite forallb_forall in H. specialize (H f Hg).
+  apply negb_true_iff in H.
+  assert (existsb (fname_eqb f) P = true); [|congruence].
+  apply existsb_exists. exists f. split; [assumption|apply fname_eqb_refl].
+Qed.
+
+Lemma noalias_stable o s f : vinj s -> stable o s f -> noalias s f.
+Proof.
+  intros Hi Hs g j Hg Hj. apply stable_spec in Hs as (i & e & H1 & H2 & _).
+  assert (j <> i) by (intros ->; apply Hg; eapply Hi; eauto).
+  split; congruence.
+Qed.
+
+Lemma noalias_current s : vinj s -> cur_excl s -> noalias s Current.
+Proof.
+  intros Hi Hc g j Hg Hj. split; intros H; apply Hg; [eapply Hi; eauto|eapply Hc; eauto].
 Qed.
 
 (** generic (non-publishing, non-root-fsync) step *)
 Lemma inv_safe_step o s ps op s' :
-  inv o s ps -> safe_op s (protected o ps) op = true -> op <> FsyncDir Root ->
+  inv o s ps -> safe_op (protected o ps) op = true -> op <> FsyncDir Root ->
   apply s op = Some s' -> inv o s' ps.
 Proof.
-  destruct ps as [[dv vv] pub]. intros (Hwf & Hcd & Hcv & Hpd & Hpv) Hsafe Hop Ha.
-  assert (HK : forall f, In f (protected o (dv, vv, pub)) -> keeps s s' f op).
-  { intros f Hf. eapply apply_keeps; eauto. eapply safe_untouched; eauto. }
+  destruct ps as [[dv vv] pub]. intros ((Hwf & Hvi & Hce) & Hcd & Hcv & Hpd & Hpv) Hsafe Hop Ha.
+  assert (HKc : keeps s s' Current op).
+  { eapply apply_keeps; eauto; [now apply noalias_current|].
+    eapply safe_untouched; eauto. now left. }
   assert (HP : forall ov, (forall f, In f (opnames o ov) -> In f (protected o (dv, vv, pub))) ->
                           pinned o s ov -> pinned o s' ov).
   { intros [v|] Hin; simpl; [|trivial]. intros [Hv Hst]. split; [assumption|].
-    intros f Hf. eapply keeps_stable; [apply HK; apply Hin; exact Hf|auto]. }
+    intros f Hf. eapply keeps_stable; [|auto].
+    eapply apply_keeps; eauto; [eapply noalias_stable; eauto|].
+    eapply safe_untouched; eauto. }
   split; [|split; [|split; [|split]]].
-  - eapply wf_apply; eauto.
-  - eapply keeps_cur_dns; eauto. apply HK. now left.
-  - eapply keeps_cur_vns; eauto. apply HK. now left.
+  - split; [eapply wf_apply; eauto|]. split; [eapply vinj_apply; eauto|].
+    eapply cur_excl_apply; eauto. eapply safe_untouched; eauto. now left.
+  - eapply keeps_cur_dns; eauto.
+  - eapply keeps_cur_vns; eauto.
   - apply HP; [|assumption]. intros f Hf. simpl. right. apply in_or_app. now left.
   - apply HP; [|assumption]. intros f Hf. simpl. right. apply in_or_app. now right.
 Qed.
@@ -415,15 +504,17 @@ Qed.
 Lemma inv_fsync_root o s dv vv pub s' :
   inv o s (dv, vv, pub) -> apply s (FsyncDir Root) = Some s' -> inv o s' (vv, vv, pub).
 Proof.
-  intros (Hwf & Hcd & Hcv & Hpd & Hpv) Ha.
-  assert (HK : forall f, keeps s s' f (FsyncDir Root)).
-  { intros f. eapply apply_keeps; eauto. intros g []. }
+  intros ((Hwf & Hvi & Hce) & Hcd & Hcv & Hpd & Hpv) Ha.
+  assert (Hun : forall f, untouched f (FsyncDir Root)) by (intros f g []).
   assert (HP : pinned o s' vv).
   { destruct vv as [v|]; simpl; [|trivial]. destruct Hpv as [Hv Hst]. split; [assumption|].
-    intros f Hf. eapply keeps_stable; [apply HK|auto]. }
-  assert (HC : cur_points o s' (vns s') vv) by (eapply keeps_cur_vns; eauto).
+    intros f Hf. eapply keeps_stable; [|auto].
+    eapply apply_keeps; eauto. eapply noalias_stable; eauto. }
+  assert (HC : cur_points o s' (vns s') vv).
+  { eapply keeps_cur_vns; eauto. eapply apply_keeps; eauto. now apply noalias_current. }
   split; [|split; [|split; [|split]]]; try assumption.
-  - eapply wf_apply; eauto.
+  - split; [eapply wf_apply; eauto|]. split; [eapply vinj_apply; eauto|].
+    eapply cur_excl_apply; eauto.
   - (* the durable [current] is now the volatile one *)
     simpl in Ha. destruct (negb (vdirs s Root)); [discriminate|].
     inversion Ha; subst; clear Ha. simpl in *. exact HC.
@@ -463,18 +554,23 @@ Lemma inv_publish o s dv vv pub k v1 s' :
   inv o s (dv, vv, pub) -> publish_ok o s (dv, vv, pub) k = Some v1 ->
   apply s (Rename (TempFile k) Current) = Some s' -> inv o s' (dv, Some v1, true).
 Proof.
-  intros (Hwf & Hcd & Hcv & Hpd & Hpv) Hp Ha.
+  intros ((Hwf & Hvi & Hce) & Hcd & Hcv & Hpd & Hpv) Hp Ha.
   apply publish_ok_spec in Hp as (-> & <- & Hvc & Hst & it & t & Ht & Hd & Hv & Hc).
-  assert (HK : forall f, f <> Current -> (forall k', f <> TempFile k') ->
-                         keeps s s' f (Rename (TempFile k) Current)).
-  { intros f H1 H2. eapply apply_keeps; eauto.
-    intros g [<-|[<-|[]]]; split; auto. }
   assert (HP : forall ov, pinned o s ov -> pinned o s' ov).
   { intros [v|]; simpl; [|trivial]. intros [Hv' Hst']. split; [assumption|].
-    intros f Hf. destruct (pnames_not_special _ _ _ Hf). eapply keeps_stable; [apply HK|]; auto. }
+    intros f Hf. destruct (pnames_not_special _ _ _ Hf) as [H1 H2].
+    eapply keeps_stable; [|auto]. eapply apply_keeps; eauto; [eapply noalias_stable; eauto|].
+    intros g [<-|[<-|[]]]; auto. }
+  pose proof (wf_apply _ _ _ Ha Hwf) as Hwf'.
+  pose proof (vinj_apply _ _ _ Ha Hwf Hvi) as Hvi'.
   simpl in Ha. rewrite Ht in Ha. inversion Ha; subst; clear Ha.
   split; [|split; [|split; [|split]]].
-  - eapply (wf_apply s (Rename (TempFile k) Current)); [simpl; now rewrite Ht|assumption].
+  - split; [assumption|]. split; [assumption|].
+    (* the old inode of [current] is no longer reachable *)
+    intros g i. simpl. unfold upd_name. intros H1.
+    destruct (fname_eqb g Current) eqn:Eg; [intros _; now apply fname_eqb_eq|].
+    destruct (fname_eqb g (TempFile k)); [discriminate|]. intros H2.
+    apply fname_eqb_neq in Eg. exfalso. apply Eg. eapply Hce; eauto.
   - destruct dv as [v|]; simpl in *; assumption.
   - simpl. exists it, t. rewrite upd_name_same. auto.
   - apply HP in Hpd. destruct dv; simpl in *; assumption.
@@ -487,10 +583,10 @@ Lemma step_inv o s ps op ps' s' :
 Proof.
   intros Hi Hs Ha. destruct ps as [[dv vv] pub].
   assert (Hgen : forall op0, op0 = op -> op0 <> FsyncDir Root ->
-            (if safe_op s (protected o (dv, vv, pub)) op0 then Some (dv, vv, pub) else None) = Some ps' ->
+            (if safe_op (protected o (dv, vv, pub)) op0 then Some (dv, vv, pub) else None) = Some ps' ->
             inv o s' ps').
   { intros op0 -> Hne H.
-    destruct (safe_op s (protected o (dv, vv, pub)) op) eqn:E; [|discriminate].
+    destruct (safe_op (protected o (dv, vv, pub)) op) eqn:E; [|discriminate].
     inversion H; subst. eapply inv_safe_step; eauto. }
   destruct op as [d|f e|f t|f|d|src dst|f]; unfold proto_step in Hs;
     try (apply (Hgen _ eq_refl); [discriminate|exact Hs]).
@@ -540,12 +636,12 @@ Lemma proto_step_shape o s dv vv pub op dv' vv' pub' :
   (pub = false /\ pub' = true /\ dv = vv /\ dv' = dv /\ exists v1, vv' = Some v1).
 Proof.
   intros Hs.
-  Ltac use_gen := match goal with Hs : context [safe_op _ _ ?x], Hgen : _ |- _ => exact (Hgen x Hs) end.
+  Ltac use_gen := match goal with Hs : context [safe_op _ ?x], Hgen : _ |- _ => exact (Hgen x Hs) end.
   assert (Hgen : forall op0,
-            (if safe_op s (protected o (dv, vv, pub)) op0 then Some (dv, vv, pub) else None)
+            (if safe_op (protected o (dv, vv, pub)) op0 then Some (dv, vv, pub) else None)
             = Some (dv', vv', pub') ->
             pub' = pub /\ vv' = vv /\ (dv' = dv \/ dv' = vv)).
-  { intros op0 H. destruct (safe_op s (protected o (dv, vv, pub)) op0); [|discriminate].
+  { intros op0 H. destruct (safe_op (protected o (dv, vv, pub)) op0); [|discriminate].
     inversion H; subst. auto. }
   destruct op as [d|f e|f t|f|d|src dst|f]; unfold proto_step in Hs;
     try (left; use_gen).
@@ -629,7 +725,7 @@ Lemma crash_atomic_core o s ov tr sf dvf vvf pubf :
      summary (recover_dir o img) = osummary o vvf) /\
     (length tr <= n -> summary (recover_dir o img) = osummary o vvf)%nat /\
     summary (recover_dir o img) <> SFailed /\
-    exists psn, inv o sn psn.
+    exists dvn vvn pubn, inv o sn (dvn, vvn, pubn) /\ (dvn = ov \/ dvn = vvf).
 Proof.
   intros Hi Hrun ->.
   pose proof (proto_run_inv _ _ _ _ _ _ Hi Hrun) as Hif.
@@ -655,7 +751,10 @@ Proof.
     rewrite skipn_all2 in Hrun by lia. simpl in Hrun. inversion Hrun; subst. tauto.
   - destruct Hin as (_ & _ & _ & Hpd & Hpv).
     destruct Hrec as [->| ->]; eapply osummary_not_failed; eauto.
-  - eauto.
+  - exists dvn, vvn, pubn. split; [assumption|].
+    simpl in Hreach. destruct pubn.
+    + apply proto_run_published in Hrun as [-> _]. tauto.
+    + destruct Hreach as [-> _]. now left.
 Qed.
 
 (** [before] = what recovery returns on the durable state of [s]; [after] = same for
@@ -701,3 +800,215 @@ Proof.
   { intros w Hw. simpl. unfold vsummary. destruct (version_contents o w); discriminate. }
   destruct H1 as [->| ->]; apply Hnf; [left; apply Hd|right; apply Hif].
 Qed.
+
+(** * Establishing [disk_ok] for concrete states *)
+Lemma wf_init : wf fs_init.
+Proof. split; [reflexivity|]. intros f i [H|H]; discriminate. Qed.
+
+Lemma vinj_init : vinj fs_init.
+Proof. intros f g i H; discriminate. Qed.
+
+Lemma run_fs_wf s tr s' : run_fs s tr = Some s' -> wf s -> vinj s -> wf s' /\ vinj s'.
+Proof.
+  revert s; induction tr as [|op tr IH]; intros s; simpl.
+  - intros H; inversion H; subst; auto.
+  - destruct (apply s op) as [s1|] eqn:Ea; [|discriminate].
+    intros H Hw Hv. apply (IH s1 H); [eapply wf_apply|eapply vinj_apply]; eauto.
+Qed.
+
+Lemma run_fs_init_wf tr s : run_fs fs_init tr = Some s -> wf s /\ vinj s.
+Proof. intros H. eapply run_fs_wf; eauto using wf_init, vinj_init. Qed.
+
+Lemma cur_of_points o s ns ov : cur_of o s ns = Some ov -> cur_points o s ns ov.
+Proof.
+  unfold cur_of. destruct (ns Current) as [i|] eqn:E.
+  - destruct (vcont s i) as [|t [|]] eqn:Ev; try discriminate.
+    destruct (list_eqb (dcont s i) [t]) eqn:Ed; [|discriminate]. apply list_eqb_eq in Ed.
+    destruct (current_points o t) as [v|] eqn:Ec; [|discriminate].
+    intros H; inversion H; subst. simpl. exists i, t. auto.
+  - intros H; inversion H; subst. exact E.
+Qed.
+
+Lemma disk_okb_sound o s ov : wf s -> vinj s -> disk_okb o s ov = true -> disk_ok o s ov.
+Proof.
+  intros Hw Hv H. unfold disk_okb in H. apply andb_true_iff in H as [H H3].
+  apply andb_true_iff in H as [H1 H2]. apply opt_eqb_eq in H1.
+  destruct (cur_of o s (dns s)) as [ov'|] eqn:Ec; [|discriminate].
+  apply opt_eqb_eq in H2. subst ov'.
+  assert (Hp : pinned o s ov).
+  { destruct ov as [v|]; simpl; [|trivial]. apply andb_true_iff in H3 as [H3 H4].
+    split; [destruct (version_contents o v); congruence|].
+    intros f Hf. rewrite forallb_forall in H4. now apply H4. }
+  unfold disk_ok, inv. split; [|split; [|split; [|split]]]; auto.
+  - split; [assumption|]. split; [assumption|].
+    intros g i Hd Hg. rewrite H1 in Hd. eapply Hv; eauto.
+  - now apply cur_of_points.
+  - apply cur_of_points. unfold cur_of in *. now rewrite <- H1.
+Qed.
+
+(** * Examples: a concrete 2-table disk and a flush *)
+Module Ex.
+(* v0 = empty, v1 lists tables 0,1, v2 lists 0,1,2; [current] payload tokens 100,101,102 *)
+Definition o1 : oracle := mkOracle
+  (fun v => match v with
+            | 0 => Some (mkVdesc [] []) | 1 => Some (mkVdesc [0;1] [])
+            | 2 => Some (mkVdesc [0;1;2] []) | _ => None end)
+  (fun f => match f with
+            | VersionFile 0 => Some [10] | VersionFile 1 => Some [11;12]
+            | VersionFile 2 => Some [13;14]
+            | TableFile 0 => Some [20;21] | TableFile 1 => Some [22;23]
+            | TableFile 2 => Some [24;25;26]
+            | _ => None end)
+  (fun t => match t with 100 => Some 0 | 101 => Some 1 | 102 => Some 2 | _ => None end).
+
+(* create_new, then one flush producing the two-table run {0,1} (rotation) *)
+Definition tr_setup : list fsop :=
+  trace_create_new false [10] 0 100 ++
+  trace_flush [mkW 0 [20] [21]; mkW 1 [22] [23]] 1 [11;12] 1 101 [0].
+
+Definition s1 : fsstate :=
+  match run_fs fs_init tr_setup with Some s => s | None => fs_init end.
+
+Lemma s1_run : run_fs fs_init tr_setup = Some s1.
+Proof. vm_compute. reflexivity. Qed.
+
+Example ex_s1_consistent : disk_consistent o1 s1.
+Proof.
+  exists 1. destruct (run_fs_init_wf _ _ s1_run) as [Hw Hv].
+  apply disk_okb_sound; [assumption|assumption|vm_compute; reflexivity].
+Qed.
+
+Example ex_s1_recovers : summary (recover_result_of o1 s1) = SRec 1 [0; 1] [].
+Proof. vm_compute. reflexivity. Qed.
+
+(* the flush of a third table, publishing v2 and removing v1 *)
+Definition tr_flush : list fsop :=
+  trace_flush [mkW 2 [24] [25;26]] 2 [13;14] 2 102 [1].
+
+Example ex_flush_ops :
+  tr_flush =
+  [Create (TableFile 2) true; Write (TableFile 2) 24; Write (TableFile 2) 25;
+   Write (TableFile 2) 26; FsyncFile (TableFile 2); FsyncDir Tables;
+   Create (VersionFile 2) false; Write (VersionFile 2) 13; Write (VersionFile 2) 14;
+   FsyncFile (VersionFile 2); FsyncDir Root;
+   Create (TempFile 2) true; Write (TempFile 2) 102; FsyncFile (TempFile 2);
+   Rename (TempFile 2) Current; FsyncFile Current; FsyncDir Root;
+   Unlink (VersionFile 1)].
+Proof. reflexivity. Qed.
+
+Example ex_flush_protocol_ok : protocol_ok o1 s1 tr_flush = true.
+Proof. vm_compute. reflexivity. Qed.
+
+(* ALL crash images of ALL prefixes, enumerated: 4352 images, each recovers to
+   {v1,[0,1]} or {v2,[0,1,2]}; all images of the final state recover to v2 *)
+Example ex_flush_image_count : length (all_prefix_summaries o1 s1 tr_flush) = 4352%nat.
+Proof. vm_compute. reflexivity. Qed.
+
+Example ex_flush_all_images : crash_atomic_check o1 s1 tr_flush = true.
+Proof. vm_compute. reflexivity. Qed.
+
+Example ex_flush_before_after :
+  forallb (fun r => rsummary_eqb r (SRec 1 [0;1] []) || rsummary_eqb r (SRec 2 [0;1;2] []))
+          (all_prefix_summaries o1 s1 tr_flush) = true /\
+  existsb (rsummary_eqb (SRec 1 [0;1] [])) (all_prefix_summaries o1 s1 tr_flush) = true /\
+  existsb (rsummary_eqb (SRec 2 [0;1;2] [])) (all_prefix_summaries o1 s1 tr_flush) = true.
+Proof. vm_compute. auto. Qed.
+
+(* the same fact from the general theorem *)
+Example ex_flush_by_theorem :
+  forall n sn img, run_fs s1 (firstn n tr_flush) = Some sn -> is_crash_image sn img ->
+    summary (recover_dir o1 img) = SRec 1 [0;1] [] \/
+    summary (recover_dir o1 img) = SRec 2 [0;1;2] [].
+Proof.
+  intros n sn img Hn Hi.
+  destruct (crash_atomic_generic o1 s1 tr_flush ex_s1_consistent ex_flush_protocol_ok)
+    as (sf & Hsf & _ & Hall).
+  destruct (Hall n sn img Hn Hi) as [H _].
+  assert (Ea : summary (recover_result_of o1 sf) = SRec 2 [0;1;2] []).
+  { vm_compute in Hsf. inversion Hsf; subst sf. vm_compute; reflexivity. }
+  rewrite ex_s1_recovers, Ea in H. exact H.
+Qed.
+
+(* create_new itself: every crash image is Fresh or the empty version 0 *)
+Example ex_create_new_images :
+  crash_atomic_check o1 fs_init (trace_create_new false [10] 0 100) = true.
+Proof. vm_compute. reflexivity. Qed.
+End Ex.
+
+(** * The blob path (suspected defect S2): REFUTED for the faithful trace *)
+Module ExBlob.
+Definition o2 : oracle := mkOracle
+  (fun v => match v with 0 => Some (mkVdesc [] []) | 1 => Some (mkVdesc [0] [0]) | _ => None end)
+  (fun f => match f with
+            | VersionFile 0 => Some [10] | VersionFile 1 => Some [11]
+            | TableFile 0 => Some [20;21] | BlobFile 0 => Some [30;31]
+            | _ => None end)
+  (fun t => match t with 100 => Some 0 | 101 => Some 1 | _ => None end).
+
+(* BlobTree::open on an empty folder *)
+Definition tr_open : list fsop := trace_create_new true [10] 0 100.
+Definition sb : fsstate := match run_fs fs_init tr_open with Some s => s | None => fs_init end.
+Lemma sb_run : run_fs fs_init tr_open = Some sb.
+Proof. vm_compute. reflexivity. Qed.
+
+Lemma sb_consistent : disk_consistent o2 sb.
+Proof.
+  exists 0. destruct (run_fs_init_wf _ _ sb_run) as [Hw Hv].
+  apply disk_okb_sound; [assumption|assumption|vm_compute; reflexivity].
+Qed.
+
+(* the first flush with key-value separation; [fixd] = insert the missing FsyncDir Blobs *)
+Definition tr_flush_blob (fixd : bool) : list fsop :=
+  trace_flush_blob fixd [mkW 0 [20] [21]] [mkW 0 [30] [31]] 1 [11] 1 101 [0].
+
+Example ex_blob_flush_ops :
+  tr_flush_blob false =
+  [Create (TableFile 0) true; Create (BlobFile 0) false; Write (BlobFile 0) 30;
+   Write (BlobFile 0) 31; FsyncFile (BlobFile 0);
+   Write (TableFile 0) 20; Write (TableFile 0) 21; FsyncFile (TableFile 0); FsyncDir Tables;
+   Create (VersionFile 1) false; Write (VersionFile 1) 11; FsyncFile (VersionFile 1);
+   FsyncDir Root; Create (TempFile 1) true; Write (TempFile 1) 101; FsyncFile (TempFile 1);
+   Rename (TempFile 1) Current; FsyncFile Current; FsyncDir Root; Unlink (VersionFile 0)].
+Proof. reflexivity. Qed.
+
+Definition sbf : fsstate :=
+  match run_fs sb (tr_flush_blob false) with Some s => s | None => sb end.
+
+(** The faithful blob flush trace violates the protocol (the blob file's directory
+    entry is not durable when [current] is switched) ... *)
+Example ex_blob_protocol_violated :
+  protocol_ok o2 sb (tr_flush_blob false) = false /\
+  first_violation o2 sb (Some 0, Some 0, false) (tr_flush_blob false) 0 = Some 16%nat.
+Proof. vm_compute. auto. Qed.
+
+(** ... and this is a real loss of crash safety: AFTER the flush has returned
+    successfully (whole trace executed), the purely durable state of the disk - a legal
+    crash image - makes recovery FAIL: [current] -> v1, v1 lists blob file 0, but
+    [blobs/0] has no durable directory entry (vlog/mod.rs:126-128 Unrecoverable). *)
+Theorem trace_flush_blob_refuted :
+  exists o s tr sf img,
+    disk_consistent o s /\
+    tr = trace_flush_blob false [mkW 0 [20] [21]] [mkW 0 [30] [31]] 1 [11] 1 101 [0] /\
+    run_fs s tr = Some sf /\ is_crash_image sf img /\
+    recover_dir o img = Failed /\
+    summary (recover_result_of o s) = SRec 0 [] [] /\
+    summary (recover_dir o (volatile_image sf)) = SRec 1 [0] [0].
+Proof.
+  exists o2, sb, (tr_flush_blob false), sbf, (durable_image sbf).
+  split; [exact sb_consistent|]. split; [reflexivity|].
+  split; [vm_compute; reflexivity|]. split; [apply durable_is_crash_image|].
+  split; [vm_compute; reflexivity|]. split; vm_compute; reflexivity.
+Qed.
+
+Example ex_blob_images_fail : crash_atomic_check o2 sb (tr_flush_blob false) = false.
+Proof. vm_compute. reflexivity. Qed.
+
+(** The repair (one [fsync_directory(blobs/)] after the blob file's [sync_all]) is
+    sufficient: the repaired trace satisfies the protocol, hence
+    [crash_atomic_generic] applies; cross-checked by enumeration. *)
+Example ex_blob_fixed_protocol_ok : protocol_ok o2 sb (tr_flush_blob true) = true.
+Proof. vm_compute. reflexivity. Qed.
+
+Example ex_blob_fixed_all_images : crash_atomic_check o2 sb (tr_flush_blob true) = true.
+Proof. vm_compute. reflexivity. Qed.
+End ExBlob.
